@@ -89,12 +89,13 @@ struct Args {
     }
 };
 
+static size_t g_max_viol = 40;
 struct Ctx {
     std::map<std::string, uint64_t> cnt;
     std::vector<std::string> viol;     // JSON objects (strings)
     std::vector<std::string> samples;  // JSON values
     std::set<uint64_t> distinct;       // hashes of distinct nontrivial signatures (optional use)
-    size_t max_viol = 40, max_samples = 6;
+    size_t max_viol = g_max_viol, max_samples = 6;
     std::set<std::string> seen_case_kind;
     uint64_t idx = 0;
     bool verbose = false;  // replay mode: drivers print details
@@ -329,7 +330,7 @@ struct Runner {
                     if (line[0] == 'C') {
                         char* k = line + 2; char* t = strchr(k, '\t');
                         if (t) { *t = 0; cnt[k] += strtoull(t + 1, nullptr, 10); }
-                    } else if (line[0] == 'V') { if (viol.size() < 60) viol.push_back(line + 2); }
+                    } else if (line[0] == 'V') { if (viol.size() < std::max<size_t>(60, g_max_viol)) viol.push_back(line + 2); }
                     else if (line[0] == 'S') { if (samples.size() < 8) samples.push_back(line + 2); }
                     else if (line[0] == 'D') distinct.insert(line + 2);
                 }
@@ -376,6 +377,7 @@ struct Runner {
     // standard main tail: --only <idx> replays, otherwise runs all
     int main_tail(const Args& a) {
         workers = (int)a.num("workers", 16);
+        if (a.has("max-viol")) g_max_viol = (size_t)a.num("max-viol");
         out = a.str("out", "/dev/stdout");
         if (a.has("deadline")) deadline_s = (double)a.num("deadline");
         if (a.has("case-timeout")) case_timeout_s = (double)a.num("case-timeout");
